@@ -266,6 +266,9 @@ pub struct Ctx {
   pub rep: Option<(Vec<RecItem>, usize)>,
   pub quiet: bool,
   pub diverged: bool,
+  /// set when a path is being abandoned: rxRust's scheduler catches panics inside tasks,
+  /// so the abort is re-raised at the next engine/world entry point
+  pub aborting: Option<u8>,
 }
 
 #[derive(Clone, Debug, PartialEq)]
@@ -309,6 +312,7 @@ impl Ctx {
       rep: None,
       quiet: false,
       diverged: false,
+      aborting: None,
     }
   }
   fn begin_run(&mut self, prefix: Vec<Decision>) {
@@ -326,6 +330,7 @@ impl Ctx {
     self.rep = None;
     self.quiet = false;
     self.diverged = false;
+    self.aborting = None;
     if let Some(s) = self.solver.as_mut() {
       s.log.clear();
       s.push();
@@ -557,7 +562,32 @@ fn fresh_var_inner(c: &mut Ctx) -> u32 {
 }
 
 fn abort(a: Abort) -> ! {
+  let code = match &a {
+    Abort::Violation => 1,
+    Abort::Pruned => 2,
+    Abort::Inconclusive(_) => 3,
+  };
+  with(|c| {
+    if c.aborting.is_none() {
+      c.aborting = Some(code)
+    }
+  });
   std::panic::resume_unwind(Box::new(a))
+}
+
+/// If the current path has been abandoned but the unwinding was swallowed by a
+/// `catch_unwind` inside the code under test, continue unwinding.
+pub fn reraise_if_aborting() {
+  if std::thread::panicking() {
+    return;
+  }
+  let code = CTX.with(|c| c.try_borrow().ok().and_then(|b| b.as_ref().and_then(|x| x.aborting)));
+  match code {
+    Some(1) => std::panic::resume_unwind(Box::new(Abort::Violation)),
+    Some(2) => std::panic::resume_unwind(Box::new(Abort::Pruned)),
+    Some(_) => std::panic::resume_unwind(Box::new(Abort::Inconclusive("re-raised".to_string()))),
+    None => {}
+  }
 }
 
 /// Fork on a boolean term. Returns the side taken on this run.
@@ -565,6 +595,7 @@ pub fn branch(cond: u32) -> bool {
   if std::thread::panicking() {
     return false;
   }
+  reraise_if_aborting();
   enum Act {
     Ret(bool),
     Prune,
@@ -637,6 +668,7 @@ pub fn choose(n: u32) -> u32 {
   if n == 1 || std::thread::panicking() {
     return 0;
   }
+  reraise_if_aborting();
   with(|c| {
     if let Some((items, pos)) = c.rep.as_mut() {
       if let Some(RecItem::Choice(v, m)) = items.get(*pos) {
@@ -705,6 +737,10 @@ pub fn prune() -> ! {
 }
 
 pub fn note(s: String) {
+  if std::thread::panicking() {
+    return;
+  }
+  reraise_if_aborting();
   with(|c| {
     if c.notes.len() < 400 {
       c.notes.push(s)
@@ -721,6 +757,7 @@ pub fn check(cond: u32, key: &str, detail: impl FnOnce() -> String) {
   if std::thread::panicking() {
     return;
   }
+  reraise_if_aborting();
   if with(|c| c.quiet) {
     return;
   }
@@ -859,8 +896,15 @@ pub fn run_once(prefix: Vec<Decision>, harness: &dyn Fn()) -> RunOutcome {
   let r = std::panic::catch_unwind(std::panic::AssertUnwindSafe(|| harness()));
   crate::world::reset_world();
   let mut out = RunOutcome { violation: None, alternatives: vec![], pruned: false, panic_msg: None };
+  let swallowed = with(|c| c.aborting);
   match r {
-    Ok(()) => {}
+    Ok(()) => {
+      // the abort was swallowed somewhere and the harness ran to its end: honour the abort
+      match swallowed {
+        Some(2) | Some(3) => out.pruned = true,
+        _ => {}
+      }
+    }
     Err(p) => {
       if let Some(a) = p.downcast_ref::<Abort>() {
         match a {
@@ -876,7 +920,14 @@ pub fn run_once(prefix: Vec<Decision>, harness: &dyn Fn()) -> RunOutcome {
         } else {
           "panic (non-string payload)".to_string()
         };
-        out.panic_msg = Some(msg);
+        if swallowed.is_some() {
+          // a secondary panic while an abandoned path was still running: not a finding of its own
+          if swallowed != Some(1) {
+            out.pruned = true;
+          }
+        } else {
+          out.panic_msg = Some(msg);
+        }
       }
     }
   }
